@@ -4,11 +4,13 @@ EXTENDS GenKeys
 O1 == 0 + (NSigGood)
 O2 == O1 + (NSigBad)
 O3 == O2 + (NSignFixed+60)
-Count == O3
+O4 == O3 + NSigMut
+Count == O4
 ItemAt(g) ==
   IF g <= O1 THEN SigGoodAt(g - 0)
   ELSE IF g <= O2 THEN SigBadAt(g - O1)
-  ELSE SignAt(g - O2)
+  ELSE IF g <= O3 THEN SignAt(g - O2)
+  ELSE SigMutAt(g - O3)
 VARIABLE n
 INSTANCE GenBase
 =============================================================================
